@@ -75,11 +75,45 @@ def field(P, obj, name, dom):
     return dom.init_field(path, None)
 
 
+def size_models(rows, dom, extra=(), bound=3):
+    """valuations of the size symbols (all >= 0, small) that satisfy every sign atom of the row; raises LookupError on other atoms"""
+    import itertools as it
+    syms = set(extra)
+    for k, v in rows.items():
+        if isinstance(k, tuple) and k[0] == 'sign':
+            d = dom.lin_of.get(k[1])
+            if d is None: raise LookupError(str(k))
+            syms |= set(d.t)
+        elif isinstance(k, tuple): raise LookupError(str(k))
+    syms = sorted(syms)
+    if len(syms) > 4: raise LookupError('too many symbols')
+    for vals in it.product(range(0, bound + 1), repeat=len(syms)):
+        env = dict(zip(syms, vals))
+        ok = True
+        for k, v in rows.items():
+            if isinstance(k, tuple) and k[0] == 'sign':
+                x = concrete(dom.lin_of[k[1]], env)
+                if {'<': x < 0, '=': x == 0, '>': x > 0}[v] is False: ok = False; break
+        if ok: yield env
+
+
 class Ghost:
     """live-prefix / allocation bookkeeping of the element storage blocks along one path"""
     def __init__(self, dom, is_class):
         self.dom = dom; self.is_class = is_class
         self.live = {}; self.alloc = {}; self.freed = set(); self.problems = []
+
+    def witness_ne(self, rows, a, b, also_pos=None):
+        """small sizes consistent with the row for which a != b (and also_pos > 0), or None"""
+        la, lb = self.lin(a), self.lin(b)
+        if la is None or lb is None: return None
+        try:
+            for env in size_models(rows, self.dom, extra=set(la.t) | set(lb.t) | (set(also_pos.t) if also_pos is not None else set())):
+                x, y = concrete(la, env), concrete(lb, env)
+                if x is None or y is None: return None
+                if x != y and (also_pos is None or (concrete(also_pos, env) or 0) > 0): return env
+        except LookupError: return None
+        return None
 
     def lin(self, v):
         return as_lin(v) if not isinstance(v, (ModVal, MinVal, Bytes, Ptr, Rem)) else None
@@ -192,15 +226,21 @@ def check_array_path(rep, f, label, rows, dom, P, is_class, base):
                 if b in g.freed: viol.append(('AR.2', node, f'block {b} freed twice'))
                 g.freed.add(b)
         elif kind == 'range':
-            _, rk, tgt, lo, hi, src = p
+            _, rk, tgt, lo, hi, src = p[:6]
             if tgt[0] != 'raw': continue
             b = tgt[1]
             if g.eq(lo, hi) is True: continue
             empty = g.le(hi, lo)
+            if empty is True and len(p) > 6 and p[6] == 'iterpair':
+                viol.append(('AR.2', node, f'an iterator-pair algorithm is given the reversed range [{lo}, {hi}) ({rs}): it walks `first != last` upwards from element {lo} and never meets `last`: storage that holds no element is {"destroyed" if rk == "destroy" else "written"} (an `i < end` loop would simply not run)'))
+                continue
             if empty is True: continue
             if rk == 'construct':
                 if b in g.live:
-                    if is_class and g.eq(g.live[b], lo) is False: viol.append(('AR.2', node, f'constructs elements [{lo}, {hi}) but {g.live[b]} elements are alive: ' + ('elements are constructed over live ones' if g.le(lo, g.live[b]) else 'a gap of raw storage is left inside the array')))
+                    e_ = g.eq(g.live[b], lo)
+                    w_ = g.witness_ne(rows, g.live[b], lo, also_pos=(g.lin(hi) - g.lin(lo)) if (g.lin(hi) is not None and g.lin(lo) is not None) else None) if (is_class and e_ is None) else None
+                    if is_class and (e_ is False or w_ is not None):
+                        viol.append(('AR.2', node, f'constructs elements [{lo}, {hi}) but {g.live[b]} elements are alive' + (f' (e.g. {", ".join(f"{k}={v}" for k, v in sorted(w_.items()))})' if w_ else '') + ': ' + ('elements are constructed over live ones' if (g.le(lo, g.live[b]) is not False) else 'a gap of raw storage is left inside the array')))
                     g.live[b] = hi
                 if src and src[0] == 'raw' and (src[2] != lo or src[3] != hi):
                     viol.append(('AR.1', node, f'copies source elements [{src[2]}, {src[3]}) into destination [{lo}, {hi}): source and destination index differ'))
